@@ -106,6 +106,7 @@ type gateWal struct {
 	gateA    chan struct{} // when non-nil, AppendAndSync blocks here first
 	atGateA  chan struct{}
 	lastTag  int
+	park     *parkT
 }
 
 func (g *gateWal) Close() error { return g.inner.Close() }
@@ -182,7 +183,31 @@ func (g *gateWal) Sync(ctx context.Context) error {
 	}
 	err := g.inner.Sync(ctx)
 	g.flushPending(err)
+	// a NewTerm whose own Sync is to be parked (right after the flush, before it goes on)
+	g.mu.Lock()
+	pk := g.park
+	g.park = nil
+	g.mu.Unlock()
+	if pk != nil {
+		close(pk.arrived)
+		<-pk.release
+	}
 	return err
+}
+
+type parkT struct{ arrived, release chan struct{} }
+
+func (g *gateWal) armPark() *parkT {
+	pk := &parkT{arrived: make(chan struct{}), release: make(chan struct{})}
+	g.mu.Lock()
+	g.park = pk
+	g.mu.Unlock()
+	return pk
+}
+func (g *gateWal) disarmPark() {
+	g.mu.Lock()
+	g.park = nil
+	g.mu.Unlock()
 }
 
 // leaderSync is the completion of the WAL's background sync for the leader's AppendAndSync calls.
